@@ -35,7 +35,7 @@ func isSortSlice(f *types.Func) bool {
 
 func checkC03(p *Prog, r *Result, tier string) {
 	r.Technique = "abstract evaluation of every ordering function of package strategy over all 3^n key orderings and 13^n weak-order triples (strict-weak-order laws, lexicographic signature vs. the documented order), plus go/cfg rules on how the order is consumed (search predicate agreement, front-to-back consumption, heap discipline, placement update of the popped node)"
-	r.Explanation = "SWO every comparator handed to sort.Slice and every heap Less in package strategy compares its two operands only through relational operators on the same key of both, and as a boolean function of the key orderings it is irreflexive, asymmetric, transitive and has transitive incomparability (evaluated exhaustively, no concrete values); " +
+	r.Explanation = "P4 the per-node instance count handed to the strategies (GetDeployStatus) is the deployed count plus the in-progress count for every node of either map, read in that order; SWO every comparator handed to sort.Slice and every heap Less in package strategy compares its two operands only through relational operators on the same key of both, and as a boolean function of the key orderings it is irreflexive, asymmetric, transitive and has transitive incomparability (evaluated exhaustively, no concrete values); " +
 		"SIG its lexicographic signature equals the documented one (AUTO Count↑ Capacity↓; GLOBAL Usage+Rate↑; DRAINED Capacity↑ Usage↓; EACH Capacity↓; FILL Count↓ Capacity↓); " +
 		"SRCH a sort.Search over a sorted slice tests the first sort key with a direction that is monotone along that order and searches the whole slice; " +
 		"USE a sorted slice is consumed front to back (range over it or a prefix, or an index loop from 0 upwards); " +
@@ -295,6 +295,9 @@ func checkC03(p *Prog, r *Result, tier string) {
 	sort.Strings(names)
 	r.Tables["documented_orders"] = names
 	r.Analysed["ordering_functions"] = len(seen)
+	// P4 (shared with C13): the instance count the strategies balance on is deployed + in-progress for every node that
+	// appears in either source, in both backends
+	checkP4(p, r)
 }
 
 // check2 records ok when why is empty, a violation with why otherwise.
